@@ -216,7 +216,8 @@ func newDateTime(argumentList []Value, location *Time.Location) float64 {
 			return math.NaN()
 		}
 
-		if year >= 0 && year <= 99 {
+		// 15.9.3.1 step 8 / 15.9.4.3 step 8 test ToInteger(year).
+		if year = math.Trunc(year); year >= 0 && year <= 99 {
 			year += 1900
 		}
 
